@@ -421,13 +421,10 @@ func (ex *Exec) builtin(fr *frame, st *State, reach *Term, b *ssa.Builtin, c *ss
 		n0, n1 := vc.SliceLen(st0), vc.SliceLen(more)
 		vc.Assume(reach, Forall([]*Term{iq}, Implies(And(vc.Cmp("<=", vc.IntConst(0), iq, it), vc.Cmp("<", iq, n0, it)),
 			Eq(Select(narr, iq), vc.SliceAt(a0, vc.SliceOff(st0), iq)))))
-		// appended part, stated per position k of the NEW array (so that reads of the new array instantiate it; the
-		// index arithmetic is on the side of the old array)
-		kq := Sym("k!q", vc.IntSort())
-		lhs := Select(narr, kq)
-		rhs := vc.SliceAt(a1, vc.SliceOff(more), vc.Arith("-", kq, n0, it))
-		body := Implies(And(vc.Cmp("<=", n0, kq, it), vc.Cmp("<", kq, vc.Arith("+", n0, n1, it), it)), Eq(lhs, rhs))
-		vc.Assume(reach, &Term{Op: "forall", Bound: []*Term{kq}, Args: []*Term{body}, Sort: SBool, Pats: [][]*Term{{lhs}}})
+		// appended part, per position i of the appended slice (the two-directional form - also per position k
+		// of the new array - sets up a matching loop between the two facts and is deliberately not stated)
+		vc.Assume(reach, Forall([]*Term{iq}, Implies(And(vc.Cmp("<=", vc.IntConst(0), iq, it), vc.Cmp("<", iq, n1, it)),
+			Eq(Select(narr, vc.Arith("+", n0, iq, it)), vc.SliceAt(a1, vc.SliceOff(more), iq)))))
 		ex.setComp(st, cmp, Store(ex.comp(st, cmp, cs), r, narr))
 		nl := vc.Arith("+", n0, n1, it)
 		return vc.MkSlice(r, vc.IntConst(0), nl, nl), reach
